@@ -781,6 +781,38 @@ func runC07(c fileCase, col *stats.Collector) (bool, []string, error) {
 		} else if rerr != cbErr {
 			failure = fmt.Errorf("site %d: callback returned %q (%T) at record %d, ReadFile returned %v (not the identical error value)", my, cbErr, cbErr, k, rerr)
 		}
+		if failure == nil && len(b.perBlk) == len(b.lay.Blocks) {
+			// the same stop when what FOLLOWS the record's block is damaged or missing (the
+			// writer died after the payload; a bit of the marker flipped): reading stopped
+			// at that record, so nothing behind it has a say in what is returned
+			blk, seen := 0, 0
+			for blk < len(b.perBlk) && seen+b.perBlk[blk] <= k {
+				seen += b.perBlk[blk]
+				blk++
+			}
+			if blk < len(b.lay.Blocks) {
+				bl := b.lay.Blocks[blk]
+				variants := [][]byte{b.file[:bl.PayloadEnd]}
+				if bl.PayloadEnd < len(b.file) {
+					flipped := append([]byte(nil), b.file...)
+					flipped[bl.PayloadEnd+(k%16)] ^= 0x40
+					variants = append(variants, flipped, b.file[:bl.PayloadEnd+1+k%15])
+				}
+				for vi, data := range variants {
+					counts["callback_error_before_damage"]++
+					var got []spec.AbsVal
+					var rerr error
+					if perr := protect(func() error { got, rerr = readAbsErr(data, b.ts, b.typ, &kk, cbErr); return nil }); perr != nil {
+						failure = fmt.Errorf("site %d (callback error at record %d, block's marker damaged, variant %d): %v", my, k, vi, perr)
+					} else if len(got) != k+1 || rerr != cbErr {
+						failure = fmt.Errorf("site %d: callback returned %q at record %d of a file whose marker after that record's block is missing or damaged (variant %d): %d callbacks, ReadFile returned %v (not the identical error value)", my, cbErr, k, vi, len(got), rerr)
+					}
+					if failure != nil {
+						break
+					}
+				}
+			}
+		}
 		if col != nil {
 			col.RecordKey(fileKey(b.file, my, 's'), k > 0)
 		}
